@@ -423,12 +423,12 @@ func Chunk[T comparable](slice []T, size int) [][]T {
 // Drop creates a new slice with n elements dropped from the beginning.
 // If n < 0 the elements will be dropped from the back of the collection.
 func Drop[T any](slice []T, n int) []T {
-	if Abs(n) < len(slice) {
-		if n > 0 {
-			return slice[n:]
-		} else {
-			return slice[:len(slice)-Abs(n)]
-		}
+	if n > 0 && n < len(slice) {
+		return slice[n:]
+	}
+	// n > -len(slice) is Abs(n) < len(slice) without negating n: -math.MinInt overflows.
+	if n <= 0 && n > -len(slice) {
+		return slice[:len(slice)+n]
 	}
 	return []T{}
 }
